@@ -177,55 +177,86 @@ def printed(out_path, tag):
                     yield body
 
 
-def edges_to_file(out_path, dest, tag="E", limit=None, rng_seed=None, maximal=False):
-    """Extract printed JSON edges into an NDJSON file; optional deterministic sampling.
+def maximal_schedules(out_path, tag="E"):
+    """All printed transitions of a TLC run -> (number printed, maximal schedules, parent map).
 
-    maximal=True: every printed edge is a whole schedule (the first path TLC found to the edge's source state
-    plus the edge), and the printed set is prefix-closed, so a schedule that is a proper prefix of another
-    printed schedule is replayed anyway when the longer one is.  Only the maximal schedules are kept (and
-    sampled, if there are still more than `limit`); `edges_to_file.covered` is the number of printed edges
-    that are a prefix of some kept schedule, i.e. the transitions actually replayed."""
-    n = 0
-    lines = []
-    for payload in printed(out_path, tag):
-        lines.append(payload)
+    Every printed edge is a whole schedule (the first path TLC found to the edge's source state plus the
+    edge), and the printed set is prefix-closed, so a schedule that is a proper prefix of another printed
+    schedule is replayed anyway when the longer one is: only the maximal ones need to be executed."""
+    lines = list(printed(out_path, tag))
     total = len(lines)
     parent = {}
-    if maximal:
-        # raw-text keys: ToJson is deterministic, so the parent schedule's line is this line minus its last
-        # element; elements are recognised by their first two field names (no nested record starts with both)
-        m0 = re.match(r'\{"hist":\[\{"([A-Za-z]+)":[^,{\[]*,"([A-Za-z]+)":', lines[0]) if lines else None
-        if not m0:
-            raise ToolError("cannot recognise the schedule elements of %s" % out_path)
-        marker = re.compile(r'\{"%s":[^,{\[]*,"%s":' % (m0.group(1), m0.group(2)))
-        for l in lines:
-            i = -1
-            for mm in marker.finditer(l):
-                i = mm.start()
-            if i < 0:
-                raise ToolError("schedule line without elements in %s" % out_path)
-            parent[l] = (l[:i - 1] if l[i - 1] == "," else l[:i]) + "]}"
-        inner = set(parent.values())
-        lines = [l for l in lines if l not in inner]
+    if not lines:
+        return 0, [], parent
+    # raw-text keys: ToJson is deterministic, so the parent schedule's line is this line minus its last
+    # element; elements are recognised by their first two field names (no nested record starts with both)
+    m0 = re.match(r'\{"hist":\[\{"([A-Za-z]+)":[^,{\[]*,"([A-Za-z]+)":', lines[0])
+    if not m0:
+        raise ToolError("cannot recognise the schedule elements of %s" % out_path)
+    marker = re.compile(r'\{"%s":[^,{\[]*,"%s":' % (m0.group(1), m0.group(2)))
+    for l in lines:
+        i = -1
+        for mm in marker.finditer(l):
+            i = mm.start()
+        if i < 0:
+            raise ToolError("schedule line without elements in %s" % out_path)
+        parent[l] = (l[:i - 1] if l[i - 1] == "," else l[:i]) + "]}"
+    inner = set(parent.values())
+    return total, [l for l in lines if l not in inner], parent
+
+
+def write_schedules(lines, parent, dest, limit=None, rng_seed=None):
+    """Write (a seeded sample of) the maximal schedules; returns (schedules written, printed transitions covered)."""
     if limit and len(lines) > limit:
         import random
         r = random.Random(rng_seed if rng_seed is not None else 1)
         lines = r.sample(lines, limit)
-    covered = len(lines)
-    if maximal:
-        seen = set()
-        for l in lines:
-            k = l
-            while k in parent and k not in seen:
-                seen.add(k)
-                k = parent[k]
-        covered = len(seen)
-    edges_to_file.covered = covered
+    seen = set()
+    for l in lines:
+        k = l
+        while k in parent and k not in seen:
+            seen.add(k)
+            k = parent[k]
     with open(dest, "w") as f:
         for l in lines:
             f.write(l + "\n")
-            n += 1
-    return total, n
+    return len(lines), len(seen)
+
+
+def water_fill(sizes, budget):
+    """Shares of a replay budget: every slice gets an equal share, what a small slice does not need goes to the
+    larger ones (so small slices are always replayed completely)."""
+    share = {k: 0 for k in sizes}
+    left = dict(sizes)
+    while budget > 0 and left:
+        q = max(1, budget // len(left))
+        for k in sorted(left, key=lambda x: left[x]):
+            give = min(q, left[k], budget)
+            share[k] += give
+            left[k] -= give
+            budget -= give
+        left = {k: v for k, v in left.items() if v > 0}
+    return share
+
+
+def edges_to_file(out_path, dest, tag="E", limit=None, rng_seed=None, maximal=False):
+    """Extract printed JSON edges into an NDJSON file; optional deterministic sampling (see maximal_schedules)."""
+    if maximal:
+        total, lines, parent = maximal_schedules(out_path, tag)
+        n, covered = write_schedules(lines, parent, dest, limit, rng_seed)
+        edges_to_file.covered = covered
+        return total, n
+    lines = list(printed(out_path, tag))
+    total = len(lines)
+    if limit and total > limit:
+        import random
+        r = random.Random(rng_seed if rng_seed is not None else 1)
+        lines = r.sample(lines, limit)
+    edges_to_file.covered = len(lines)
+    with open(dest, "w") as f:
+        for l in lines:
+            f.write(l + "\n")
+    return total, len(lines)
 
 
 VIOL_RE = re.compile(r'^<<"VIOL", (\d+), \{(.*)\}>>$')
